@@ -56,7 +56,14 @@ func main(a, b uint) uint {
 	return a + b
 }
 `, func(r *vrt.Rng) ([]string, []string) {
-		return []string{"0x" + r.Big(4*r.Range(1, 20)).Text(16)}, []string{"0x" + r.Big(4*r.Range(1, 20)).Text(16)}
+		// equal written widths (a + b needs equal types); leading hex digit non-zero
+		n := r.Range(1, 20)
+		hex := func() string {
+			v := r.Big(4 * n)
+			v.SetBit(v, 4*n-1, 1)
+			return "0x" + v.Text(16)
+		}
+		return []string{hex()}, []string{hex()}
 	}},
 	{"unsized-bytes", `package main
 func main(a, b []byte) ([]byte, uint8) {
@@ -183,10 +190,73 @@ func c05StoreProgram(r *vrt.Rng) (src string, gIn, eIn []string) {
 	return b.String(), []string{"0x" + fmt.Sprintf("%x", av)}, []string{"0x" + r.Big(W).Text(16)}
 }
 
+// c05AliasProgram draws a program of the "alias" family: values that the
+// streaming compiler represents as re-wirings of other values (constant shifts,
+// same-width casts, array element stores and slices) are created in chains and
+// fans - one value aliased two to four times - and consumed in a PRNG order, so
+// that aliases die at different times while their source or a sibling alias is
+// still live. Wire recycling must keep every live alias intact.
+func c05AliasProgram(r *vrt.Rng) (src string, gIn, eIn []string) {
+	W := vrt.Pick(r, []int{8, 16, 31, 32, 33, 64})
+	T := fmt.Sprintf("%s%d", vrt.Pick(r, []string{"int", "uint"}), W)
+	var b strings.Builder
+	fmt.Fprintf(&b, "package main\n\nfunc main(a, b %s) (%s, %s, %s) {\n", T, T, T, T)
+	vals := []string{"a", "b"}
+	n := r.Range(4, 9)
+	arr := ""
+	for i := 0; i < n; i++ {
+		name := fmt.Sprintf("v%d", i)
+		e := vals[r.Intn(len(vals))]
+		if i > 0 && r.Intn(3) == 0 {
+			e = vals[len(vals)-1-r.Intn(min(2, len(vals)))] // fan: alias a recent value again
+		}
+		switch k := r.Intn(10); {
+		case k < 3:
+			fmt.Fprintf(&b, "\t%s := %s >> %d\n", name, e, r.Range(1, W-1))
+		case k < 5:
+			fmt.Fprintf(&b, "\t%s := %s << %d\n", name, e, r.Range(1, W-1))
+		case k == 5:
+			fmt.Fprintf(&b, "\t%s := %s(%s)\n", name, T, e)
+		case k == 6 && arr == "":
+			arr = fmt.Sprintf("m%d", i)
+			fmt.Fprintf(&b, "\tvar %s [4]%s\n\t%s[%d] = %s\n\t%s[%d] = %s\n\t%s := %s[%d]\n", arr, T, arr, r.Intn(4), e, arr, r.Intn(4), vals[r.Intn(len(vals))], name, arr, r.Intn(4))
+		case k == 6:
+			fmt.Fprintf(&b, "\t%s[%d] = %s\n\t%s := %s[%d] ^ %s[%d]\n", arr, r.Intn(4), e, name, arr, r.Intn(4), arr, r.Intn(4))
+		case k == 7:
+			fmt.Fprintf(&b, "\t%s := %s + %s\n", name, e, vals[r.Intn(len(vals))])
+		case k == 8:
+			fmt.Fprintf(&b, "\t%s := %s ^ (%s - %s)\n", name, e, vals[r.Intn(len(vals))], vals[r.Intn(len(vals))])
+		default:
+			fmt.Fprintf(&b, "\t%s := (%s >> %d) + (%s << %d)\n", name, e, r.Range(1, W-1), e, r.Range(1, W-1))
+		}
+		vals = append(vals, name)
+	}
+	// consume in a PRNG order: values die at different times
+	order := r.Perm(len(vals))
+	b.WriteString("\tr := a\n")
+	for j, i := range order {
+		op := vrt.Pick(r, []string{"+", "^", "-"})
+		if j%3 == 2 {
+			fmt.Fprintf(&b, "\tr = (r %s %s) * b\n", op, vals[i])
+		} else {
+			fmt.Fprintf(&b, "\tr = r %s %s\n", op, vals[i])
+		}
+	}
+	fmt.Fprintf(&b, "\treturn r, %s, %s\n}\n", vals[2+r.Intn(len(vals)-2)], vals[2+r.Intn(len(vals)-2)])
+	in := func() string {
+		v := r.BoundaryBig(W)
+		if T[0] == 'i' && v.Bit(W-1) == 1 {
+			v.Sub(v, new(big.Int).Lsh(big.NewInt(1), uint(W)))
+		}
+		return v.String()
+	}
+	return b.String(), []string{in()}, []string{in()}
+}
+
 func init() {
 	vrt.Register(&vrt.Prop{
 		ID: "C05", Level: "exploration",
-		Rule: "case = a two-party program (generated with aliasing bias: constant shifts, casts, array element and struct field updates, arrays/structs as arguments; or a PRNG-parameterised store-family program: literals, scalars and expressions narrower/equal/wider than the slot stored into array elements and struct fields, whole array and fields returned; or a fixture with unsized main(a, b uint) / []byte signatures instantiated from the exchanged input sizes, one keeping > 65535 wire ids live, one whose evaluator input wires straddle wire id 65536) run in streaming mode (Compiler.Stream against circuit.StreamEvaluator over a fragmenting tap; OT in {CO, COT}) on 1-3 boundary/random input pairs. " +
+		Rule: "case = a two-party program (generated with aliasing bias: constant shifts, casts, array element and struct field updates, arrays/structs as arguments; or a PRNG-parameterised alias-family program (chains and fans of constant shifts, same-width casts, element stores and reads consumed in a PRNG order so that aliases die at different times); or a store-family program: literals, scalars and expressions narrower/equal/wider than the slot stored into array elements and struct fields, whole array and fields returned; or a fixture with unsized main(a, b uint) / []byte signatures instantiated from the exchanged input sizes, one keeping > 65535 wire ids live, one whose evaluator input wires straddle wire id 65536) run in streaming mode (Compiler.Stream against circuit.StreamEvaluator over a fragmenting tap; OT in {CO, COT}) on 1-3 boundary/random input pairs. " +
 			"Oracle: no error, no stall, both parties' values identical and equal to the reference evaluation of the whole compiled circuit on the same inputs, output types and sizes identical to the circuit's. Distinct = hash(program, inputs).",
 		Assumptions: []string{"refc on the whole compiled circuit is the specification (C03 relates that circuit to the program)"},
 		NumCases: func(t string) int {
@@ -224,6 +294,10 @@ func runC05(cs *vrt.Case) {
 		src, gIn, eIn = c05StoreProgram(r)
 		what = "store family"
 		npairs = 1
+	} else if k == 7 || k == 8 {
+		src, gIn, eIn = c05AliasProgram(r)
+		what = "alias family"
+		npairs = 1
 	} else {
 		prog = mpclgen.Generate(r, c05GenCfg)
 		src, what = prog.Src, "generated"
@@ -249,6 +323,11 @@ func runC05(cs *vrt.Case) {
 		cs.SetSample(map[string]any{"kind": what, "program": trunc(src, 800), "g": trunc(strings.Join(gIn, " "), 100), "e": trunc(strings.Join(eIn, " "), 100)})
 		if pan != nil || err != nil {
 			cs.Count("whole_circuit_compile_rejected", 1)
+			if err != nil {
+				cs.Seen("compile_rejections", what+": "+trimNum(lastLine(err.Error())))
+			} else {
+				cs.Seen("compile_rejections", what+": compiler panic")
+			}
 			return
 		}
 		if len(c.Inputs) != 2 {
